@@ -33,8 +33,9 @@
     architectures and are evaluated / compared on every generated `mixed` and `win` case. PROVED:
     `walk_layout_mixed_partial` — ARM64 (both layouts) stacks mixing frame-pointer records and
     scanned frames in any order, any depth — through the generic chain induction
-    `walkLoop_chain_generic` (Lemmas/WalkChainMixed.lean). The full statements `walk_layout_mixed`
-    and `walk_layout_win` (x86 STACK WIN chains) are comments below.
+    `walkLoop_chain_generic` (Lemmas/WalkChainMixed.lean). `walk_layout_win` (x86 STACK WIN chains,
+    any depth) and the x86 part of `walk_layout_mixed` without STACK CFI frames are PROVED in
+    `MdProofs/C04Win.lean`; the full statement `walk_layout_mixed` is a comment below.
 -/
 import MdProofs.Lemmas.WalkChain
 import MdProofs.Lemmas.WalkScanChain
@@ -313,10 +314,9 @@ theorem walk_layout_scan'_concrete (a : Arch) (os : Os) (w : World) (mem : Mem) 
       — `PreW` (MdModel/Walk/LayoutMixed.lean) is evaluated on every generated `mixed` / `win` case;
       proved part: `walk_layout_mixed_partial` (ARM64, fp / scan) and the generic chain induction
       `walkLoop_chain_generic` every technique plugs into.
-  theorem walk_layout_win : the instance of `walk_layout_mixed` for x86 chains all of whose frames
-      are found through STACK WIN records (frame data with the standard prologue program and its
-      `.raSearch` variants, FPO with and without a base pointer, grand-callee parameter sizes,
-      the leftover-return-address skip on the context frame only).
+  (`walk_layout_win`, the instance of `walk_layout_mixed` for x86 chains all of whose frames are
+   found through STACK WIN records, and `walk_layout_mixed_x86_partial` — x86, techniques win / fp /
+   scan — are theorems now: MdProofs/C04Win.lean.)
 
   theorem walk_layout_cfi (a : Arch) (os : Os) (w : World) (mem : Mem) (ctx : Ctx) (chain : List Exp) :
       Pre w (mkEnv a os w mem) a os .cfi mem ctx chain = true →
